@@ -414,7 +414,8 @@ def w_manager_history(ctx, rng, i):
     assigned = []   # (value object handed in, name)
     for step in range(n_ops):
         op = ["set", "set", "set", "get", "delete", "iterate", "copy", "assign_to_owner", "transform_owner", "none_key",
-              "edit_assigned", "bad_dims", "bad_type", "edit_stored", "set_own_group", "set_own_group", "assign_own_manager"][rng.integers(0, 17)]
+              "edit_assigned", "bad_dims", "bad_type", "edit_stored", "set_own_group", "set_own_group", "assign_own_manager",
+              "delete_none_key", "empty_group_and_dimension_change"][rng.integers(0, 19)]
         if op == "set":
             name = NAMES[rng.integers(0, len(NAMES))]
             val = gen.shape(rng, None, d=d, n=int(rng.integers(3, 7)))
@@ -493,6 +494,44 @@ def w_manager_history(ctx, rng, i):
                 lm[None] = gen.shape(rng, "PointCloud", d=d, n=3)
             except ValueError:
                 pass
+        elif op == "delete_none_key":
+            # the reserved key stands for "the one group there is": with none or several groups it names nothing
+            before = digest(lm)
+            try:
+                del lm[None]
+                if len(model) != 1:
+                    ctx.fail("none_key_resolved_without_exactly_one_group", cls="LandmarkManager", mech="delete:n_groups=%d" % min(len(model), 2))
+                    model.clear()
+                    model.update((k, digest(v)) for k, v in lm.items())
+                else:
+                    model.clear()
+            except (KeyError, ValueError):
+                if digest(lm) != before:
+                    ctx.fail("refused_delete_changed_the_manager", cls="LandmarkManager")
+        elif op == "empty_group_and_dimension_change" and hasattr(owner, "points") and model:
+            # a group without points next to ordinary ones, then a transform of the owner that changes the dimensionality:
+            # whatever comes out (a refusal is fine) holds groups of one dimensionality only (judged by the class invariant)
+            lm["zz empty"] = ms.PointCloud(np.zeros((0, d)))
+            model["zz empty"] = digest(lm["zz empty"])
+
+            from menpo.transform.base import Transform as _T
+
+            class DropLastAxis(_T):
+                n_dims = None
+
+                def _apply(self, x, **kw):
+                    return x[:, :-1]
+            for tr in (DropLastAxis(), mt.WithDims(list(range(d - 1)))):
+                try:
+                    out = tr.apply(owner)
+                    dims = set(int(g.n_dims) for g in out.landmarks.values())
+                    out.landmarks.n_groups      # any public call evaluates the invariant
+                    if len(dims) > 1 or (dims and out.n_dims not in dims):
+                        ctx.fail("manager_holds_groups_of_different_dimensionality", cls="LandmarkManager", mech="after_owner_transform:" + type(tr).__name__)
+                except (ValueError, IndexError):
+                    pass
+            del lm["zz empty"]
+            del model["zz empty"]
         elif op == "edit_assigned" and assigned:
             val, name = assigned[rng.integers(0, len(assigned))]
             perturb(val.points)
